@@ -7,4 +7,5 @@ import SwcVerif.Model.AlgoRunNormalizer
 import SwcVerif.Model.AlgoRunBranches
 import SwcVerif.Model.AlgoRunRedirect
 import SwcVerif.Model.AlgoRunAssemble
+import SwcVerif.Model.AlgoRunLMeasure
 /-! all runners of generated definitions (imported by the root module only; the driver imports them one by one) -/
